@@ -28,7 +28,11 @@ pid = sys.argv[1]
 jobs = int(sys.argv[sys.argv.index("-j") + 1]) if "-j" in sys.argv else 4
 path = Path(f"/tmp/w/mutsweep_{pid}.json")
 rows = json.loads(path.read_text())
-stable = set(json.load(open("/root/.vp/BASELINE.json"))["stable_pass"])
+_base = json.load(open("/root/.vp/BASELINE.json"))
+stable = set(_base["stable_pass"])
+ALWAYS_FAIL_OUTSIDE_IMPORT = [t for t in _base["always_fail"] if "test_import" not in t]
+CACHE = Path("/tmp/w/muttests_cache.json")
+cache = json.loads(CACHE.read_text()) if CACHE.exists() else {}
 head = sh(["git", "-C", "/repo", "rev-parse", "HEAD"]).stdout.strip()
 tmp = Path(tempfile.mkdtemp(prefix="mxverif-muttests-"))
 pool = []
@@ -42,6 +46,19 @@ lock = threading.Lock()
 
 def one(i):
     r = rows[i]
+    import hashlib
+
+    key = hashlib.sha1((r["module"] + "|" + r["function"] + "|" + r["text"]).encode()).hexdigest()
+    if key in cache:
+        return i, cache[key][0], cache[key][1]
+    res = _one(i)
+    with lock:
+        cache[key] = [res[1], res[2]]
+    return res
+
+
+def _one(i):
+    r = rows[i]
     with lock:
         wt = pool.pop()
     try:
@@ -49,7 +66,11 @@ def one(i):
         src = (Path("/repo") / rel).read_text().splitlines(keepends=True)
         (wt / rel).write_text("".join(src[: r["first"]]) + r["text"] + "".join(src[r["last"]:]))
         xml = wt / "junit.xml"
-        sel = ["tests"] if "/sbml/" in rel else ["tests", "--ignore=tests/sbml/test_import.py"]
+        if "/sbml/" in rel:
+            sel = ["tests"]
+        else:
+            # outside the sbml package the always-failing tests are known (5 round-trip tests): deselect them and stop at the first failure
+            sel = ["tests", "--ignore=tests/sbml/test_import.py", "-x"] + [f"--deselect=tests/sbml/test_roundtrip.py::{t.split('::')[1]}" for t in ALWAYS_FAIL_OUTSIDE_IMPORT]
         cmd = ["/venv/bin/python", "-m", "pytest", "-q", "-p", "no:cacheprovider", "--timeout=300", "--continue-on-collection-errors", f"--junitxml={xml}",
                "-n", "4", *sel]
         try:
@@ -66,7 +87,13 @@ def one(i):
         except Exception:  # noqa: BLE001
             return i, "tests", "no junit (collection crashed)"
         want = {t for t in stable if "/sbml/" in rel or not t.startswith("tests.sbml.test_import::")}
-        missing = sorted(want - passed)
+        if "-x" in sel:
+            # stopped at the first failure: only what was run can be judged
+            missing = sorted((want & seen) - passed)
+            if not missing and len(seen & want) < 0.95 * len(want):
+                missing = ["(run stopped early without a stable test failing: collection error)"]
+        else:
+            missing = sorted(want - passed)
         return (i, "tests", f"{len(missing)} stable tests fail, e.g. {missing[0]}") if missing else (i, "alive", "")
     finally:
         sh(["git", "-C", str(wt), "reset", "-q", "--hard"])
@@ -83,6 +110,7 @@ try:
             rows[i]["outcome"] = outcome
             rows[i]["detail"] = detail
     path.write_text(json.dumps(rows, indent=1))
+    CACHE.write_text(json.dumps(cache))
     alive = [r for r in rows if r["outcome"] == "alive"]
     print(f"{pid}: caught by tests={sum(1 for r in rows if r['outcome'] == 'tests')} alive={len(alive)}")
     for r in alive:
